@@ -137,6 +137,7 @@ pub trait Cont: Zeroize + Bytes + MutBytes + NewBytes + Default + Clone + Lockab
     fn from_slice_locked(src: &[u8]) -> Result<Locked<Self>, dryoc::Error>;
     fn from_slice_ro_locked(src: &[u8]) -> Result<LockedRO<Self>, dryoc::Error>;
     fn new_bytes_locked() -> Locked<Self>;
+    fn new_byte_array_locked(gen: bool) -> Option<Locked<Self>>;
     fn plain_from(src: &[u8]) -> Self;
 }
 
@@ -169,6 +170,9 @@ impl Cont for HeapBytes {
     fn new_bytes_locked() -> Locked<Self> {
         <Locked<HeapBytes> as NewBytes>::new_bytes()
     }
+    fn new_byte_array_locked(_gen: bool) -> Option<Locked<Self>> {
+        None
+    }
     fn plain_from(src: &[u8]) -> Self {
         HeapBytes::from(src)
     }
@@ -196,6 +200,10 @@ impl<const N: usize> Cont for HeapByteArray<N> {
     }
     fn new_bytes_locked() -> Locked<Self> {
         <Locked<HeapByteArray<N>> as NewBytes>::new_bytes()
+    }
+    fn new_byte_array_locked(gen: bool) -> Option<Locked<Self>> {
+        use dryoc::types::NewByteArray;
+        Some(if gen { <Locked<HeapByteArray<N>> as NewByteArray<N>>::gen() } else { <Locked<HeapByteArray<N>> as NewByteArray<N>>::new_byte_array() })
     }
     fn plain_from(src: &[u8]) -> Self {
         let mut a = HeapByteArray::<N>::default();
@@ -501,6 +509,9 @@ pub enum Ctor {
     Plain,
     DefaultLocked,
     NewBytesLocked,
+    /// `NewByteArray::new_byte_array()` / `::gen()` on `Locked<HeapByteArray<N>>` (what generic code such as `KeyPair::gen()` with locked key types uses)
+    NewByteArrayLocked,
+    GenByteArrayLocked,
     // composites outside protected.rs
     KeyPairNewLocked,
     KeyPairGenLocked,
@@ -538,6 +549,8 @@ impl Ctor {
             Ctor::Plain => "plain",
             Ctor::DefaultLocked => "Default::default(locked)",
             Ctor::NewBytesLocked => "NewBytes::new_bytes(locked)",
+            Ctor::NewByteArrayLocked => "NewByteArray::new_byte_array(locked)",
+            Ctor::GenByteArrayLocked => "NewByteArray::gen(locked)",
             Ctor::KeyPairNewLocked => "KeyPair::new_locked_keypair",
             Ctor::KeyPairGenLocked => "KeyPair::gen_locked_keypair",
             Ctor::KeyPairGenReadonlyLocked => "KeyPair::gen_readonly_locked_keypair",
@@ -553,7 +566,7 @@ impl Ctor {
     }
     /// does the API signature return a Result?
     fn fallible(&self) -> bool {
-        !matches!(self, Ctor::Plain | Ctor::DefaultLocked | Ctor::NewBytesLocked)
+        !matches!(self, Ctor::Plain | Ctor::DefaultLocked | Ctor::NewBytesLocked | Ctor::NewByteArrayLocked | Ctor::GenByteArrayLocked)
     }
 }
 
@@ -566,7 +579,12 @@ pub enum Event {
     Resize { slot: usize, len: usize },
     Write { slot: usize, fill: u64 },
     Read { slot: usize },
-    Drop { slot: usize },
+    Drop {
+        slot: usize,
+        /// the handle is dropped by stack unwinding (the caller panics while holding it)
+        #[serde(default)]
+        unwinding: bool,
+    },
     Alloc { aslot: usize, size: usize },
     Dealloc { aslot: usize },
 }
@@ -580,6 +598,7 @@ impl Event {
             Event::Resize { .. } => "resize".into(),
             Event::Write { .. } => "write".into(),
             Event::Read { .. } => "read".into(),
+            Event::Drop { unwinding: true, .. } => "drop(unwinding)".into(),
             Event::Drop { .. } => "drop".into(),
             Event::Alloc { .. } => "allocate".into(),
             Event::Dealloc { .. } => "deallocate".into(),
@@ -593,6 +612,7 @@ pub enum PlanCfg {
     RefuseFrom { k: u32, errno: i32 },
     RefuseOnce { k: u32, errno: i32 },
     Budget { pages: u32 },
+    RefuseAllFrom { k: u32, errno: i32 },
 }
 
 impl PlanCfg {
@@ -602,6 +622,7 @@ impl PlanCfg {
             PlanCfg::RefuseFrom { k, errno } => Plan::RefuseFrom { k, errno },
             PlanCfg::RefuseOnce { k, errno } => Plan::RefuseOnce { k, errno },
             PlanCfg::Budget { pages } => Plan::Budget { pages },
+            PlanCfg::RefuseAllFrom { k, errno } => Plan::RefuseAllFrom { k, errno },
         }
     }
     fn name(&self) -> &'static str {
@@ -610,6 +631,7 @@ impl PlanCfg {
             PlanCfg::RefuseFrom { .. } => "refuse_from",
             PlanCfg::RefuseOnce { .. } => "refuse_once",
             PlanCfg::Budget { .. } => "budget",
+            PlanCfg::RefuseAllFrom { .. } => "refuse_all_from",
         }
     }
 }
@@ -674,6 +696,8 @@ fn construct<A: Cont>(ctor: Ctor, src: &[u8]) -> Result<Box<dyn Reg>, String> {
         Ctor::Plain => Ok(bx(Plain(A::plain_from(src)))),
         Ctor::DefaultLocked => Ok(bx(<Locked<A> as Default>::default())),
         Ctor::NewBytesLocked => Ok(bx(A::new_bytes_locked())),
+        Ctor::NewByteArrayLocked => A::new_byte_array_locked(false).map(bx).ok_or_else(|| "not offered for this container".to_string()),
+        Ctor::GenByteArrayLocked => A::new_byte_array_locked(true).map(bx).ok_or_else(|| "not offered for this container".to_string()),
         Ctor::StackMlock | Ctor::StackReadonly => Err("stack ctor on generic path".into()),
         _ => Err("composite ctor on generic path".into()),
     }
@@ -840,8 +864,10 @@ impl MemWorld {
 
     fn viol(&self, out: &mut Out, c14_check: &str, site_: Site, detail: String, subject_slot: Option<usize>, this_slot: Option<usize>) {
         out.violate("C14", c14_check, site_.clone(), detail.clone());
-        // C19 judges the same invariants, but only once a refusal has fired
-        if self.refusals_seen > 0 {
+        // C19 judges the same invariants, but only once a refusal has fired — and not when the
+        // environment also refuses to *unlock* (then locked pages outliving their region are the
+        // environment's doing; only "no panic" and "wiped" are judged under that plan)
+        if self.refusals_seen > 0 && !matches!(self.cfg.plan, PlanCfg::RefuseAllFrom { .. }) {
             let mut s = site_;
             s.insert("invariant".into(), c14_check.to_string());
             s.insert("region".into(), if subject_slot.is_some() && subject_slot == this_slot { "subject".into() } else { "other".into() });
@@ -1182,7 +1208,8 @@ impl World for MemWorld {
                 0 => PlanCfg::None,
                 1..=16 => PlanCfg::RefuseFrom { k: j, errno: if j % 2 == 0 { libc::EPERM } else { libc::ENOMEM } },
                 17..=32 => PlanCfg::RefuseOnce { k: j - 16, errno: libc::EAGAIN },
-                _ => PlanCfg::Budget { pages: j - 33 },
+                33..=47 => PlanCfg::Budget { pages: j - 33 },
+                _ => PlanCfg::RefuseAllFrom { k: j - 47, errno: libc::EPERM },
             };
             (plan, run / C19_PLANS_PER_WALK)
         } else if prop == "C15" && rng.chance(1, 4) {
@@ -1268,7 +1295,7 @@ impl World for MemWorld {
             _ => {}
         }
         // lengths above glibc's mmap threshold (128 KiB): only for containers that are not locked
-        let pick_huge = |rng: &mut Rng| -> usize { *rng.pick(&[131072usize, 131073, 140000, 200000, 262145]) };
+        let pick_huge = |rng: &mut Rng| -> usize { *rng.pick(&[65536usize, 65537, 131072, 131073, 140000, 196608, 200000, 262144, 262145]) };
         let pick_len = |rng: &mut Rng| -> usize {
             match rng.below(10) {
                 0..=6 => *rng.pick(&ARRAY_LENS),
@@ -1286,6 +1313,8 @@ impl World for MemWorld {
                     ctors.extend_from_slice(&[Ctor::NewLocked, Ctor::NewReadonlyLocked, Ctor::GenLocked, Ctor::GenReadonlyLocked, Ctor::FromSliceLocked, Ctor::FromSliceLocked, Ctor::FromSliceReadonlyLocked, Ctor::PlainThenMlock, Ctor::DefaultLocked, Ctor::NewBytesLocked]);
                     if array.is_some() {
                         ctors.push(Ctor::StackMlock);
+                        ctors.push(Ctor::NewByteArrayLocked);
+                        ctors.push(Ctor::GenByteArrayLocked);
                     }
                     // composites lock two regions: keep inside the walk's lock-request cap
                     if self.lock_requests_seen + 2 <= MAX_LOCK_REQUESTS {
@@ -1356,7 +1385,7 @@ impl World for MemWorld {
             }
             4 => Some(Event::Write { slot: *rng.pick(&live), fill: rng.next_u64() % 1000 }),
             5 => Some(Event::Read { slot: *rng.pick(&live) }),
-            6 => Some(Event::Drop { slot: *rng.pick(&live) }),
+            6 => Some(Event::Drop { slot: *rng.pick(&live), unwinding: rng.chance(1, 4) }),
             7 => {
                 let aslot = self.allocs.iter().position(|a| a.is_none()).unwrap();
                 Some(Event::Alloc { aslot, size: if rng.chance(1, 2) { *rng.pick(&[1usize, 8, 4095, 4096, 4097, 8192, 8193]) } else { 1 + rng.usize_below(3 * 4096) } })
@@ -1620,7 +1649,7 @@ impl World for MemWorld {
                     }
                 }
             }
-            Event::Drop { slot } => {
+            Event::Drop { slot, unwinding } => {
                 let slot = slot % SLOTS;
                 let mut reg = match self.slots[slot].take() {
                     Some(r) => r,
@@ -1629,11 +1658,27 @@ impl World for MemWorld {
                 subject = Some(slot);
                 path_hint = if reg.hist.first().map(|s| s.as_str()) == Some("clone") { "clone_drop" } else { "drop" };
                 let h = reg.h.take();
+                let unwinding = *unwinding;
                 shim::arm();
-                let r = guarded(move || drop(h));
+                let r = if unwinding {
+                    // the caller panics while it still owns the container: the drop runs during unwinding
+                    let r = guarded(move || {
+                        let _owned = h;
+                        std::panic::resume_unwind(Box::new("simulated caller panic"));
+                    });
+                    match r {
+                        Err(_) => Ok(()),
+                        Ok(()) => Ok(()),
+                    }
+                } else {
+                    guarded(move || drop(h))
+                };
                 shim::disarm();
                 out.op();
-                out.cell(&format!("drop|{:?},{:?}|{}|{}", reg.p, reg.l, len_class(reg.len, self.page), reg.shrunk));
+                if unwinding {
+                    out.fault("caller_panic_while_owning");
+                }
+                out.cell(&format!("drop|{:?},{:?}|{}|{}|{}", reg.p, reg.l, len_class(reg.len, self.page), reg.shrunk, unwinding));
                 out.note(&format!("drop slot={} state={:?},{:?} len={}", slot, reg.p, reg.l, reg.len));
                 if let Err((loc, msg)) = r {
                     out.violate("C14", "c14.crash", site(&[("event", "drop"), ("state", &format!("{:?},{:?}", reg.p, reg.l))]), format!("drop panicked: {} at {}", msg, loc));
@@ -1753,7 +1798,7 @@ impl World for MemWorld {
         if let Some(lck) = shim::vmlck(&mut scratch) {
             if lck != 0 && !self.cfg.mlockall {
                 out.violate("C14", "c14.residual_lock", site(&[("history", &hist_class)]), format!("after the last handle was dropped VmLck is {} bytes (history of the last region(s): {})", lck, hist_class));
-                if self.refusals_seen > 0 {
+                if self.refusals_seen > 0 && !matches!(self.cfg.plan, PlanCfg::RefuseAllFrom { .. }) {
                     out.violate("C19", "c19.residual", site(&[("event", "end"), ("what", "vmlck")]), format!("after a refused lock and all drops, VmLck is {} bytes", lck));
                 }
             }
@@ -1860,7 +1905,7 @@ impl World for MemWorld {
     }
 }
 
-pub const C19_PLANS_PER_WALK: u64 = 48;
+pub const C19_PLANS_PER_WALK: u64 = 56;
 
 impl MemWorld {
     fn dead_hist(&mut self, reg: Region) {
